@@ -66,7 +66,7 @@ def any_of(d):
 
 BUILTIN = {
     "ANY": A.ANY, "ASCII_DIGIT": A.ASCII_DIGIT, "XID_START": A.XID_START, "XID_CONTINUE": A.XID_CONTINUE,
-    "ASCII_ALPHA": A.ASCII_ALPHA, "ASCII_ALPHANUMERIC": A.ASCII_ALPHANUMERIC, "NEWLINE": A.NEWLINE,
+    "ASCII_ALPHA": A.ASCII_ALPHA, "ASCII_ALPHANUMERIC": A.ASCII_ALPHANUMERIC,
 }
 
 
@@ -194,6 +194,11 @@ class Matcher:
                 return {}
             c = self.t.in_set(i, BUILTIN[name])
             return {} if c is False else {i + 1: c}
+        if name == "NEWLINE":
+            # pest: NEWLINE = "\n" | "\r\n" | "\r"
+            if not hasattr(self, "_nl"):
+                self._nl = Node("choice", [Node("str", "\n"), Node("str", "\r\n"), Node("str", "\r")])
+            return self.match(self._nl, i, True, True)
         if name == "SOI":
             return {i: True} if i == 0 else {}
         if name == "EOI":
@@ -336,7 +341,7 @@ class Matcher:
             return self._advance(e, start, dyn, gen)
         if k == "ident":
             name = e.a
-            if name in BUILTIN or name in ("SOI", "EOI") or name not in self.rules:
+            if name in BUILTIN or name in ("SOI", "EOI", "NEWLINE") or name not in self.rules:
                 return self._advance(e, start, dyn, gen)
             r = self.rules[name]
             if r.modifier in ("@", "$") or name in ("WHITESPACE", "COMMENT"):
